@@ -322,6 +322,7 @@ def run(ctx):
     install_invariant()
     res = core.Result()
     import random
+    H.set_spare(random.Random(ctx.seed * 104729 + ctx.shard))     # words the property gives no meaning to are not zeros
     H.set_clock(random.Random(ctx.seed * 7919 + ctx.shard))      # coarse time base: records may share a tick
     rng = ctx.rng
     for i in range(ctx.pick(300, 25000)):
